@@ -1,5 +1,6 @@
 import OdakModel.Exec.OpsWave
 import OdakModel.Propagator
+import OdakModel.Hologram
 namespace Odak.Exec
 open Odak
 
@@ -38,4 +39,25 @@ def propSeq (a : List Int) : String :=
   joinS (go nops PState.init [])
 
 def opsProp : List (String × Handler) := [("prop_seq", propSeq)]
+end Odak.Exec
+
+namespace Odak.Exec
+open Odak
+/-- t_pc meth h w dx lam z field(2hw): zero-pad, propagate with the kernel of the padded size, crop  (zero_padding = [True, False, True]) -/
+def padCropOp (a : List Int) : String :=
+  let x := a.toArray
+  let meth := x.getD 0 0
+  let h := (x.getD 1 0).toNat; let w := (x.getD 2 0).toNat
+  let dx := fl (x.getD 3 0); let lam := fl (x.getD 4 0); let z := fl (x.getD 5 0)
+  let u : CGrid Float h w := readGrid h w x 6
+  let up := padGrid u
+  let H : CGrid Float (2 * h) (2 * w) := match meth with
+    | 0 => asKernel _ _ dx lam z
+    | 1 => tfKernel _ _ dx lam (wavenumber lam) z
+    | _ => blKernel _ _ dx lam z
+  showGrid (cropGrid (customNoAp up H))
+def opsHolo : List (String × Handler) := [
+  ("t_pc", padCropOp),
+  ("quantized_phase", fun a => outF [quantizedPhase (a.getD 0 0).toNat (fl (a.getD 1 0))])
+]
 end Odak.Exec
